@@ -17,10 +17,14 @@ import (
 	"fmt"
 	"math/big"
 	"os"
+	"regexp"
 	"strings"
 	"syscall"
 	"time"
 
+	"com.tuntun.rangers/node/src/common"
+	"com.tuntun.rangers/node/src/executor"
+	"com.tuntun.rangers/node/src/middleware/types"
 	"com.tuntun.rangers/node/src/vm"
 	"github.com/holiman/uint256"
 	"verif/harness/hx"
@@ -57,11 +61,20 @@ func panicKey(msg string) string {
 		return "slice-bounds-panic"
 	}
 	k := strings.ToLower(msg)
+	k = strings.Map(func(r rune) rune { // one class per panic site, whatever the indices
+		if r >= '0' && r <= '9' {
+			return '#'
+		}
+		return r
+	}, k)
+	for strings.Contains(k, "##") {
+		k = strings.ReplaceAll(k, "##", "#")
+	}
 	if len(k) > 46 {
 		k = k[:46]
 	}
 	return "panic-" + strings.Map(func(r rune) rune {
-		if (r >= 'a' && r <= 'z') || (r >= '0' && r <= '9') {
+		if (r >= 'a' && r <= 'z') || (r >= '0' && r <= '9') || r == '#' {
 			return r
 		}
 		return '-'
@@ -340,6 +353,9 @@ func searchMain(a map[string]string) {
 	arityFamily(hx.ArgInt(a, "arity", 1) > 1, hx.SeedFromEnv(), func(ctx string, s spec) {
 		runSpec("arity-"+ctx, s)
 	})
+	jumpFamilies(hx.ArgInt(a, "arity", 1) > 1, hx.SeedFromEnv(), func(name string, s spec) {
+		runSpec(name, s)
+	})
 	// the two hard limits, tested directly
 	for _, cfg := range []int{32, 1 | 2 | 8 | 32, 63} {
 		for _, k := range []int{1024, 1025} {
@@ -443,6 +459,9 @@ func searchMain(a map[string]string) {
 			runSpec(kind, spec{kind: "C", cfg: cfg, gas: gas, value: value, code: code, input: input, aux: aux, aux2: aux2, to: target})
 		}
 	}
+	// directed probe of the caller of the EVM: does the contract executor's gas cap hold when the
+	// intrinsic gas of a (huge) call-data exceeds the cap?
+	evals += probeExecutorGasCap()
 	evals += searchPrecompiles(g, n/2)
 	evals += searchDynGas(r, n*3)
 	keys := []string{}
@@ -450,4 +469,49 @@ func searchMain(a map[string]string) {
 		keys = append(keys, fmt.Sprintf("%q:%d", k, v))
 	}
 	fmt.Printf("SEARCH {\"evaluations\":%d,\"distinct\":%d,\"finding_classes\":{%s}}\n", evals, len(distinct)+n/2+n*3, strings.Join(keys, ","))
+}
+
+type chainStub struct{}
+
+func (chainStub) GetBlockHash(h uint64) common.Hash { return common.Hash{} }
+
+// contractExecutor.Execute with a transaction whose call data is so large that IntrinsicGas (magnified
+// by 30 under Proposal026) exceeds the 9e8 cap: the check `GasLimit < intrinsicGas` uses the uncapped
+// limit, then `vmCtx.GasLimit = gasLimit - intrinsicGas` is computed on the capped one.
+func probeExecutorGasCap() int {
+	setConfig(63)
+	c := &common.LocalChainConfig
+	c.Proposal017Block = 0
+	ex := executor.GetTxExecutor(types.TransactionTypeContract)
+	if ex == nil {
+		return 0
+	}
+	// callee: return the gas it sees (GAS PUSH1 0 MSTORE PUSH1 32 PUSH1 0 RETURN)
+	code := []byte{0x5a, 0x60, 0x00, 0x52, 0x60, 0x20, 0x60, 0x00, 0xf3}
+	w := newWorld(code, nil)
+	data := make([]byte, 1900000)
+	for i := range data {
+		data[i] = 1
+	}
+	intrinsic, _ := executor.IntrinsicGas(data, false)
+	raw := &executor.ContractRawData{GasLimit: intrinsic + 1000, TransferValue: big.NewInt(0), AbiData: data}
+	tx := &types.Transaction{Source: "0x" + ha(origin), Target: "0x" + ha(target), Type: types.TransactionTypeContract}
+	header := &types.BlockHeader{Height: 3000, CurTime: time.Unix(1700000000, 0), Castor: coinbase.Bytes()}
+	ctx := map[string]interface{}{"contractData": raw, "chain": chainStub{}}
+	res := hx.Guard(func() string {
+		ok, msg := ex.Execute(tx, header, w.adb, ctx)
+		if len(msg) > 200 {
+			msg = msg[:200]
+		}
+		return fmt.Sprintf("%v %s gasUsed=%v", ok, msg, ctx["gasUsed"])
+	})
+	m := regexp.MustCompile(`"result":"0x([0-9a-f]{64})"`).FindStringSubmatch(res)
+	if m != nil {
+		seen, _ := new(big.Int).SetString(m[1], 16)
+		if seen.Cmp(big.NewInt(900000000)) > 0 {
+			report("executor-gas-cap-underflow", fmt.Sprintf("contractExecutor.Execute with %d bytes of call data (intrinsic gas %d > cap 900000000) and gas limit %d ran the callee with %s gas", len(data), intrinsic, raw.GasLimit, seen.String()),
+				map[string]interface{}{"call": "executor.GetTxExecutor(200).Execute", "abiData": "1900000 x 0x01", "gasLimit": raw.GasLimit, "callee_code": "5a60005260206000f3", "observed": res})
+		}
+	}
+	return 1
 }
